@@ -89,8 +89,8 @@ Definition stmt_levels : Prop :=
 
 (** C15: consecutive positions of an iterator never go backwards: whenever a thread's Next completes
     with a valid position, the key is >= the key it stood on before, and a different node if equal.
-    Stated on one step: if thread i is inside Next (LItNext/LItHelp/re-search) having started from
-    node c0, the position it finally reports has key >= key c0. *)
+    Stated on one step: if thread i is inside Next (LItNext/LItHelp/re-search, or the Refresh search at
+    the end of every k-th Next, when the position already is the new one) having started from node c0, the position it finally reports has key >= key c0. *)
 Definition stmt_iter_monotone : Prop :=
   forall progs sched i, let y := runS (init progs) sched in
     let y' := stepS y i in
@@ -98,7 +98,9 @@ Definition stmt_iter_monotone : Prop :=
       (match todo t with ONext :: _ => cur t = None | _ => False end \/
        match cur t with Some (LItNext _) | Some (LItHelp _ _) | Some (LFP0 _ (KIterNext _) _)
                       | Some (LFP1 _ (KIterNext _) _ _ _) | Some (LFP2 _ (KIterNext _) _ _ _ _)
-                      | Some (LFPH _ (KIterNext _) _ _ _ _ _) => True | _ => False end) ->
+                      | Some (LFPH _ (KIterNext _) _ _ _ _ _)
+                    | Some (LFP0 _ KRefresh _) | Some (LFP1 _ KRefresh _ _ _) | Some (LFP2 _ KRefresh _ _ _ _)
+                    | Some (LFPH _ KRefresh _ _ _ _ _) => True | _ => False end) ->
       cur t' = None ->
       it_valid (p_it (pers_of t)) = true -> it_curr (p_it (pers_of t)) <> tl_id ->
       it_curr (p_it (pers_of t')) = tl_id \/
